@@ -23,7 +23,7 @@ def make_classify(tu):
             lhs = lib.strip_casts(ev.get("lhs"))
             if isinstance(lhs, list) and lhs[:1] == ["member"]:
                 f = erase(lhs[1])
-                if f == "trompeloeil::call_matcher::reported":
+                if lib.is_set_reported(tu, ev):
                     return ("sym", "set_reported")
                 if f == "trompeloeil::lifetime_monitor::died":
                     return ("sym", "set_died")
